@@ -100,7 +100,7 @@ def rotoLayout (h : HostLayouts) (t : BTy) : Option Layout := layoutOf h (toMTy 
 /-- Offset of field `k` of a variant (the `VariantField` loop of
     `Lowerer::location`: tag first, then every field before it). -/
 def variantFieldOffset (h : HostLayouts) (fs : List MTy) (k : Nat) : Option Nat :=
-  match addFields h (LayoutBuilder.add LayoutBuilder.new enumTagLayout).1 (fs.take k), (fs[k]?).bind (layoutOf h) with
+  match addFields h (LayoutBuilder.add LayoutBuilder.new locationTagLayout).1 (fs.take k), (fs[k]?).bind (layoutOf h) with
   | some b, some l => some (LayoutBuilder.add b l).2
   | _, _ => none
 
